@@ -72,6 +72,8 @@ def run(model, res, tier):
     res.rule('R4', 'off(name, cb) keeps exactly listeners whose fn is neither cb nor a wrapper of cb, in order; off(name) drops the name')
     res.rule('R5', 'every read/write of listener storage is keyed by the name argument')
     res.rule('R6', 'no subclass in the package overrides on/once/emit/off')
+    res.rule('R8', 'whatever an emitter method counts up (or sets) before it calls listeners and counts down (or resets) afterwards is restored '
+             'on every exit - a listener that raises must not leave the emitter in the "busy" state')
     res.rule('R7', 'no emitter method resizes a list inside a loop that iterates over that same list (entries would be skipped)')
     res.assumptions += ['callbacks are ordinary callables compared with ==', 'the per-name container is a list']
     res.trusted += ['CPython ast', 'list/slice copy semantics']
@@ -81,12 +83,14 @@ def run(model, res, tier):
         methods = dict((n.name, n) for n in c.body if isinstance(n, ast.FunctionDef))
         store = storage_attr(m, c, methods)
         res.analysed['storage attribute'] = '%s.%s' % (c.name, store)
-        _r1(model, res, m, c, methods, store)
-        _r2(model, res, m, c, methods, store)
-        _r3(model, res, m, c, methods, store)
-        _r4(model, res, m, c, methods, store)
-        _r5(model, res, m, c, methods, store)
-        _r7(model, res, m, c, methods)
+        from .. import abshelp as H
+        H.safely(res, 'R1', 'emit', _r1, model, res, m, c, methods, store)
+        H.safely(res, 'R2', 'on', _r2, model, res, m, c, methods, store)
+        H.safely(res, 'R3', 'once', _r3, model, res, m, c, methods, store)
+        H.safely(res, 'R4', 'off', _r4, model, res, m, c, methods, store)
+        H.safely(res, 'R5', 'storage', _r5, model, res, m, c, methods, store)
+        H.safely(res, 'R7', 'resizing', _r7, model, res, m, c, methods)
+        H.safely(res, 'R8', 'paired bookkeeping', _r8, model, res, m, c, methods)
         for sm, sc in model.subclasses_of(m, c):
             for n in sc.body:
                 if isinstance(n, ast.FunctionDef) and n.name in API:
@@ -109,6 +113,7 @@ def emitter_rules(model, res):
         _r4(model, res, m, c, methods, store)
         _r5(model, res, m, c, methods, store)
         _r7(model, res, m, c, methods)
+        _r8(model, res, m, c, methods)
 
 
 # ---------------------------------------------------------------------------------------------------
@@ -721,6 +726,37 @@ def _r4(model, res, m, c, methods, store):
                 any(is_storage_for_name(t, s, store, name_p) for t in st.targets)]
         stores = [st for st in p.stmts() if isinstance(st, ast.Assign) and
                   any(is_storage_for_name(t, s, store, name_p) for t in st.targets)]
+        # whatever off(name, cb) removes, it removes after looking at every listener of the name: a path that changes the storage
+        # (rebinds, deletes, pops ...) without running the filter removes by some other criterion (the newest entry, the first match)
+        if filt is not None:
+            edits = list(dels) + list(stores)
+            for st in p.stmts():
+                for n in ast.walk(st):
+                    if isinstance(n, ast.Call) and isinstance(n.func, ast.Attribute) and n.func.attr in ('pop', 'remove', 'clear', 'insert') and \
+                            (is_storage_for_name(sa.resolve_local(off, n.func.value), s, store, name_p) or
+                             (sa.is_self_attr(n.func.value, s, store) and n.args and _is_name(n.args[0], name_p))):
+                        edits.append(st)
+                if isinstance(st, ast.Delete) and any(isinstance(t, ast.Subscript) and
+                                                      is_storage_for_name(sa.resolve_local(off, t.value), s, store, name_p) for t in st.targets):
+                    edits.append(st)
+            ran_filter = any((it[0] == 'loop' and it[1] is filt[3] and it[2] >= 1) for it in p.items) or \
+                any(any(x is filt[3] for x in ast.walk(st)) for st in p.stmts()) or \
+                any(it[0] == 'loop' and it[1] is filt[3] for it in p.items)
+            # only where the path itself has established that there are listeners (an empty list needs no looking through)
+            from ..paths import atoms as _atoms
+            nonempty = False
+            for t_, v_ in p.conds():
+                for a_, tv_ in _atoms(t_, v_):
+                    if tv_ and isinstance(a_, (ast.Name, ast.Subscript, ast.Attribute)) and \
+                            is_storage_for_name(sa.resolve_local(off, a_) if isinstance(a_, ast.Name) else a_, s, store, name_p):
+                        nonempty = True
+            if edits and nonempty:
+                res.ob('R4', site, 'a path that changes the storage has run the filter: %s' % p.describe()[:80], ran_filter)
+                if not ran_filter:
+                    res.violation('R4', key + ':edit-without-filter', m.where(edits[0]),
+                                  'off(name, callback) changes the listeners of the name (%s) on a path that never looks through them (%s): it '
+                                  'removes by another criterion than "this callback, or a once-wrapper of it" - other subscriptions of the same '
+                                  'callback stay behind' % (src(edits[0])[:50], p.describe()[:120]), case=p.describe()[:200], func=c.name + '.off')
         if filt is not None and filt[4] == 'loop':
             # the name of the survivors list
             surv = None
@@ -881,3 +917,86 @@ def _r7(model, res, m, c, methods):
                           '%s changes the length of %s inside the loop that iterates over it: the iteration then skips the entry that slides '
                           'into the freed position (two adjacent listeners of one callback - on() then once() - are not both removed) or visits '
                           'entries twice' % (src(st)[:60], what), func='%s.%s' % (c.name, name))
+
+
+# ---------------------------------------------------------------------------------------------------
+# R8: paired bookkeeping around calls (acquire / release discipline on every exit)
+
+def unbalanced_pairs(func):
+    """[(first stmt, second stmt, text of the attribute)] : in one block,  self.x += c ... self.x -= c   or   self.x = A ... self.x = B
+    with statements that make calls in between, where the second is not the ``finally`` of a try that covers those calls:
+    an exception in between skips the restoring statement."""
+    s_ = sa.self_name(func)
+    out = []
+
+    def attr_of(t):
+        return t.attr if isinstance(t, ast.Attribute) and isinstance(t.value, ast.Name) and t.value.id == s_ else None
+
+    def effect(st):
+        """('inc'|'dec'|'set', attr) of a simple statement on a self attribute, else None."""
+        if isinstance(st, ast.AugAssign) and attr_of(st.target) and isinstance(st.op, (ast.Add, ast.Sub)):
+            return ('inc' if isinstance(st.op, ast.Add) else 'dec', attr_of(st.target))
+        if isinstance(st, ast.Assign) and len(st.targets) == 1 and attr_of(st.targets[0]):
+            v = st.value
+            a = attr_of(st.targets[0])
+            if isinstance(v, ast.BinOp) and isinstance(v.op, (ast.Add, ast.Sub)) and attr_of(v.left) == a:
+                return ('inc' if isinstance(v.op, ast.Add) else 'dec', a)
+            if isinstance(v, ast.Constant):
+                return ('set', a)
+        return None
+
+    def scan(block):
+        for i, st in enumerate(block):
+            e1 = effect(st)
+            if e1 is not None:
+                for j in range(i + 1, len(block)):
+                    e2 = effect(block[j])
+                    if e2 is not None and e2[1] == e1[1] and ((e1[0], e2[0]) in (('inc', 'dec'), ('dec', 'inc'), ('set', 'set'))):
+                        between = block[i + 1:j]
+                        calls = [x for b in between for x in ast.walk(b) if isinstance(x, ast.Call)]
+                        if calls:
+                            out.append((st, block[j], 'self.' + e1[1]))
+                        break
+                    if isinstance(block[j], ast.Try) and block[j].finalbody and any(
+                            effect(f_) is not None and effect(f_)[1] == e1[1] for f_ in block[j].finalbody):
+                        break       # restored in a finally: balanced on every exit
+            for fld in ('body', 'orelse', 'finalbody'):
+                sub = getattr(st, fld, None)
+                if isinstance(sub, list) and not isinstance(st, (ast.FunctionDef, ast.ClassDef)):
+                    scan(sub)
+            for h in getattr(st, 'handlers', []) or []:
+                scan(h.body)
+    scan(func.body)
+    return out
+
+
+_R8_WITNESS = """
+def bad(self, name, *args):
+    self._depth += 1
+    for listener in self._e[name][:]:
+        listener.fn(*args)
+    self._depth -= 1
+
+def good(self, name, *args):
+    self._depth += 1
+    try:
+        for listener in self._e[name][:]:
+            listener.fn(*args)
+    finally:
+        self._depth -= 1
+"""
+
+
+def _r8(model, res, m, c, methods):
+    wit = ast.parse(_R8_WITNESS)
+    if not unbalanced_pairs(wit.body[0]) or unbalanced_pairs(wit.body[1]):
+        raise AnalysisError('C20.R8 self-check failed')
+    for name, f in sorted(methods.items()):
+        hits = unbalanced_pairs(f)
+        res.ob('R8', '%s:%s.%s' % (m.name, c.name, name), 'paired bookkeeping is restored on every exit', not hits,
+               '; '.join('%s ... %s' % (src(a)[:30], src(b)[:30]) for a, b, w in hits))
+        for a, b, w in hits:
+            res.violation('R8', '%s:%s.%s:unbalanced-bookkeeping:%s' % (m.name, c.name, name, w), m.where(b),
+                          '%s is changed by "%s" before listeners run and restored by "%s" afterwards, but not in a finally: a listener '
+                          'that raises leaves %s changed for good, and later emits behave as if an emit were still in progress'
+                          % (w, src(a)[:40], src(b)[:40], w), func='%s.%s' % (c.name, name))
